@@ -660,3 +660,28 @@ func init() {
 		return res
 	}
 }
+
+func init() {
+	// strings.EqualFold on bounded strings: equal lengths and bytewise equality after ASCII case
+	// folding (non-ASCII simple folding is not modelled: such bytes must be equal)
+	stubs["strings.EqualFold"] = func(e *Exec, fn *ssa.Function, args []Value) Value {
+		a, b := strView(args[0].(Str)), strView(args[1].(Str))
+		m, ok := e.smallMax(a.Len, b.Len)
+		if !ok {
+			panic(engineErr("strings.EqualFold on strings of unbounded length"))
+		}
+		fold := func(c *smt.Term) *smt.Term {
+			up := smt.And(smt.UGe(c, smt.Const('A', 8)), smt.ULe(c, smt.Const('Z', 8)))
+			return smt.Ite(up, smt.Add(c, smt.Const(32, 8)), c)
+		}
+		cs := []*smt.Term{smt.Eq(a.Len, b.Len)}
+		for i := 0; i < m; i++ {
+			cs = append(cs, smt.Implies(smt.ULt(c64(i), a.Len), smt.Eq(fold(a.at(c64(i))), fold(b.at(c64(i))))))
+		}
+		e.Notes["stub strings.EqualFold: ASCII case folding only"] = true
+		return smt.And(cs...)
+	}
+	stubs["strings.ToLower"] = func(e *Exec, fn *ssa.Function, args []Value) Value {
+		panic(engineErr("strings.ToLower not modelled"))
+	}
+}
